@@ -5,7 +5,7 @@ META = dict(
           '(lp32 ABI, 16-bit pointers) plus unaligned ends and null; n over 10 integer types with values {-4..4, n that put the exact target 0,+-1,+-2 '
           'elements around region start/end, type extrema, floor/ceil(2^k/s)+-1 for k=16,31,32,63,64}; plain operands on every base, tainted / '
           'tainted_volatile operands and tainted_volatile pointers on boundary bases (all bases in thorough); mask and registry membership modes; '
-          '32-bit instance on boundary bases. Oracle: E = p +- n*s_guest in 128-bit arithmetic with s_guest from a hand-written layout table: inside => '
+          '32-bit instance on boundary bases; an instance with a pointer-wide 64-bit base-relative representation over a 64 KiB region on every base. Oracle: E = p +- n*s_guest in 128-bit arithmetic with s_guest from a hand-written layout table: inside => '
           'returns exactly E, otherwise abort; null => abort. non-trivial = |n| > 4 or null base.'),
     assumptions=['aborts observed through RLBOX_CUSTOM_ABORT flag (operations are pure)',
                  'offset 0 of the region has guest representation 0 = null; cases whose result would be stored as representation 0 in a pointer cell are unconstrained',
@@ -21,9 +21,11 @@ def run(ctx):
         specs.append(('c05_mask16_' + g, 'c05.cpp', dict(opt='-O1', defs=['C05_TYPES=' + types])))
     specs.append(('c05_reg16', 'c05.cpp', dict(opt='-O1', defs=['C05_TYPES=char, long, int*', 'C05_MODE=REGISTRY'])))
     specs.append(('c05_mask32', 'c05.cpp', dict(opt='-O1', defs=['C05_TYPES=char, long, VS', 'C05_PTR=uint32_t'])))
+    specs.append(('c05_mask64', 'c05.cpp', dict(opt='-O1', defs=['C05_TYPES=char, long, int*, VS', 'C05_PTR=uint64_t', 'C05_LOG=16'])))
     bins = ctx.build_many(specs)
     args = ['--thorough'] if ctx.thorough else []
     for g, _ in GROUPS:
         ctx.run(bins['c05_mask16_' + g], args)
     ctx.run(bins['c05_reg16'], args)
     ctx.run(bins['c05_mask32'], args)
+    ctx.run(bins['c05_mask64'], args)
